@@ -7,6 +7,6 @@ CONSTANTS
   AtomicSet = {TRUE}
   TrackLast = FALSE
   UseRoller = TRUE
-INVARIANTS TypeOK C03_Run C03_NoDeath C03_NoLostWakeup
+INVARIANTS TypeOK C03_Run C03_NoDeath C03_NoLostWakeup C03_Wakeable
 PROPERTIES StepsOK
 CHECK_DEADLOCK FALSE
